@@ -240,32 +240,86 @@ pub enum Fault {
     /// classification, but the source carries on afterwards
     ErrEof,
     Eof,
-    /// any other `std::io::ErrorKind` (index into `OTHER_KINDS`); used in single-deviation schedules
-    Kind(u8),
+    /// any other error an `io::Read` can raise; used in single-deviation schedules.
+    /// index < OTHER_KINDS.len(): `io::Error::new(OTHER_KINDS[i], ..)`; 1000 + n: `io::Error::from_raw_os_error(n)`
+    Kind(u16),
 }
-pub const OTHER_KINDS: [std::io::ErrorKind; 16] = {
+pub const OTHER_KINDS: [std::io::ErrorKind; 36] = {
     use std::io::ErrorKind::*;
-    [NotFound, PermissionDenied, ConnectionRefused, ConnectionReset, ConnectionAborted, NotConnected, AddrInUse, AddrNotAvailable, AlreadyExists, InvalidInput, InvalidData, WriteZero, Unsupported, OutOfMemory, BrokenPipe, TimedOut]
+    [
+        NotFound, PermissionDenied, ConnectionRefused, ConnectionReset, ConnectionAborted, NotConnected, AddrInUse, AddrNotAvailable, AlreadyExists, InvalidInput, InvalidData, WriteZero, Unsupported, OutOfMemory, BrokenPipe, TimedOut,
+        HostUnreachable, NetworkUnreachable, NetworkDown, NotADirectory, IsADirectory, DirectoryNotEmpty, ReadOnlyFilesystem, StaleNetworkFileHandle, StorageFull, NotSeekable, QuotaExceeded, FileTooLarge, ResourceBusy, ExecutableFileBusy, Deadlock, CrossesDevices, TooManyLinks, InvalidFilename, ArgumentListTooLong, Other,
+    ]
 };
+/// errno values handed to `io::Error::from_raw_os_error` (Linux numbers them 1..=133)
+pub const OS_ERRORS: std::ops::RangeInclusive<u16> = 1..=133;
+/// every index `Fault::Kind` takes in single-deviation schedules
+pub fn all_kind_indices() -> Vec<u16> {
+    (0..OTHER_KINDS.len() as u16).chain(OS_ERRORS.map(|n| 1000 + n)).collect()
+}
+fn kind_error(k: u16) -> std::io::Error {
+    if k >= 1000 {
+        std::io::Error::from_raw_os_error((k - 1000) as i32)
+    } else {
+        std::io::Error::new(OTHER_KINDS[k as usize % OTHER_KINDS.len()], "kind")
+    }
+}
+/// How the reference reader treats a fault: by the `std::io::ErrorKind` of the error the source
+/// raises (std's own classification of errno values, not the crate's).
+#[derive(Clone, Copy, PartialEq, Eq, Debug)]
+enum FaultClass {
+    WouldBlock,
+    Retry,
+    ErrEof,
+    Other,
+    Eof,
+}
+impl Fault {
+    fn error(self) -> Option<std::io::Error> {
+        use std::io::{Error, ErrorKind};
+        Some(match self {
+            Fault::IntrBurst | Fault::Interrupted => Error::new(ErrorKind::Interrupted, "intr"),
+            Fault::ErrEof => Error::new(ErrorKind::UnexpectedEof, "eof"),
+            Fault::Kind(k) => kind_error(k),
+            Fault::WouldBlock => Error::new(ErrorKind::WouldBlock, "wb"),
+            Fault::Other => Error::new(ErrorKind::Other, "other"),
+            Fault::BrokenPipe => Error::new(ErrorKind::BrokenPipe, "pipe"),
+            Fault::TimedOut => Error::new(ErrorKind::TimedOut, "timeout"),
+            Fault::Eof => return None,
+        })
+    }
+    fn class(self) -> FaultClass {
+        match self.error() {
+            None => FaultClass::Eof,
+            Some(e) => match e.kind() {
+                std::io::ErrorKind::WouldBlock => FaultClass::WouldBlock,
+                std::io::ErrorKind::Interrupted => FaultClass::Retry,
+                std::io::ErrorKind::UnexpectedEof => FaultClass::ErrEof,
+                _ => FaultClass::Other,
+            },
+        }
+    }
+}
 impl Fault {
     const ALL: [Fault; 8] = [Fault::WouldBlock, Fault::Interrupted, Fault::Other, Fault::BrokenPipe, Fault::TimedOut, Fault::IntrBurst, Fault::ErrEof, Fault::Eof];
     /// what an `embedded_hal::serial::Read` can answer besides a byte
     const EH: [Fault; 2] = [Fault::WouldBlock, Fault::Other];
-    fn token(self) -> &'static str {
+    fn token(self) -> String {
         match self {
-            Fault::Kind(k) => ["NotFound", "PermissionDenied", "ConnectionRefused", "ConnectionReset", "ConnectionAborted", "NotConnected", "AddrInUse", "AddrNotAvailable", "AlreadyExists", "InvalidInput", "InvalidData", "WriteZero", "Unsupported", "OutOfMemory", "BrokenPipeK", "TimedOutK"][k as usize % 16],
-            Fault::WouldBlock => "WouldBlock",
-            Fault::Interrupted => "Interrupted",
-            Fault::Other => "Other",
-            Fault::BrokenPipe => "BrokenPipe",
-            Fault::TimedOut => "TimedOut",
-            Fault::IntrBurst => "InterruptedX300",
-            Fault::ErrEof => "ErrUnexpectedEof",
-            Fault::Eof => "Eof",
+            Fault::Kind(k) if k >= 1000 => format!("Errno{}", k - 1000),
+            Fault::Kind(k) => format!("Kind{:?}", OTHER_KINDS[k as usize % OTHER_KINDS.len()]),
+            Fault::WouldBlock => "WouldBlock".into(),
+            Fault::Interrupted => "Interrupted".into(),
+            Fault::Other => "Other".into(),
+            Fault::BrokenPipe => "BrokenPipe".into(),
+            Fault::TimedOut => "TimedOut".into(),
+            Fault::IntrBurst => "InterruptedX300".into(),
+            Fault::ErrEof => "ErrUnexpectedEof".into(),
+            Fault::Eof => "Eof".into(),
         }
     }
     fn parse(s: &str) -> Option<Fault> {
-        Fault::ALL.iter().copied().chain((0..16u8).map(Fault::Kind)).find(|f| f.token() == s)
+        Fault::ALL.iter().copied().chain(all_kind_indices().into_iter().map(Fault::Kind)).find(|f| f.token() == s)
     }
 }
 /// Choice-driven `io::Read`: call number c of `read` deviates if the schedule says so,
@@ -294,23 +348,16 @@ impl<'a> std::io::Read for SchedRead<'a> {
             return Ok(0);
         }
         if let Some((_, f)) = self.sched.iter().find(|(k, _)| *k == c) {
-            use std::io::{Error, ErrorKind};
             match f {
                 Fault::IntrBurst => {
                     self.burst_left = 299;
-                    return Err(Error::new(ErrorKind::Interrupted, "intr"));
+                    return Err(f.error().unwrap());
                 }
-                Fault::ErrEof => return Err(Error::new(ErrorKind::UnexpectedEof, "eof")),
-                Fault::Kind(k) => return Err(Error::new(OTHER_KINDS[*k as usize % 16], "kind")),
-                Fault::WouldBlock => return Err(Error::new(ErrorKind::WouldBlock, "wb")),
-                Fault::Interrupted => return Err(Error::new(ErrorKind::Interrupted, "intr")),
-                Fault::Other => return Err(Error::new(ErrorKind::Other, "other")),
-                Fault::BrokenPipe => return Err(Error::new(ErrorKind::BrokenPipe, "pipe")),
-                Fault::TimedOut => return Err(Error::new(ErrorKind::TimedOut, "timeout")),
                 Fault::Eof => {
                     self.eof = true;
                     return Ok(0);
                 }
+                _ => return Err(f.error().unwrap()),
             }
         }
         if self.i >= self.s.len() {
@@ -339,7 +386,7 @@ impl<'a> embedded_hal::serial::Read<u8> for SchedEh<'a> {
         if let Some((_, f)) = self.sched.iter().find(|(k, _)| *k == c) {
             match f {
                 Fault::WouldBlock => return Err(nb::Error::WouldBlock),
-                _ => return Err(nb::Error::Other(0xbad)),
+                _ => return Err(nb::Error::Other(0x100 + c as u16)),
             }
         }
         if self.i >= self.s.len() {
@@ -371,33 +418,57 @@ impl Driver {
 /// One observed call result; `None` = the iterator-style end signal.
 type CallRes = Option<Ev>;
 
-fn conv_nb<E: sml_rs::util::ByteSourceErr>(r: nb::Result<&[u8], sml_rs::transport::ReadDecodedError<E>>) -> Ev {
+/// Identity of a byte-source error as far as a caller can tell it apart from others.
+trait ErrIdent {
+    fn ident(&self) -> String;
+}
+impl ErrIdent for std::io::Error {
+    fn ident(&self) -> String {
+        format!("{:?}", self.kind())
+    }
+}
+impl ErrIdent for nb::Error<u16> {
+    fn ident(&self) -> String {
+        format!("{:?}", self)
+    }
+}
+/// `conv_read`, additionally noting which error came back with every "other read error" result.
+fn conv_read_id<E: sml_rs::util::ByteSourceErr + ErrIdent>(r: Result<&[u8], sml_rs::transport::ReadDecodedError<E>>, ids: &mut Vec<String>) -> Ev {
+    if let Err(sml_rs::transport::ReadDecodedError::IoErr(e, _)) = &r {
+        if crate::fe::iok(e) == IoK::Other {
+            ids.push(e.ident());
+        }
+    }
+    conv_read(r)
+}
+fn conv_nb<E: sml_rs::util::ByteSourceErr + ErrIdent>(r: nb::Result<&[u8], sml_rs::transport::ReadDecodedError<E>>, ids: &mut Vec<String>) -> Ev {
     match r {
         Ok(m) => Ev::Msg(m.to_vec()),
         Err(nb::Error::WouldBlock) => Ev::Io(IoK::WouldBlock, 0),
-        Err(nb::Error::Other(e)) => conv_read(Err(e)),
+        Err(nb::Error::Other(e)) => conv_read_id(Err(e), ids),
     }
 }
 
 /// Drives the real reader over the scheduled source; stops after two consecutive end
 /// signals (next: None; read: IoErr(Eof, 0)) or `max_calls`.
 macro_rules! drive_loop {
-    ($rd:expr, $drv:expr, $max_calls:expr, $res:expr, $stop_at_end:expr) => {{
+    ($rd:expr, $drv:expr, $max_calls:expr, $res:expr, $stop_at_end:expr, $ids:expr) => {{
         let mut rd = $rd;
         let drv = $drv;
         let res = &mut $res;
+        let ids = &mut $ids;
         let mut ends = 0;
         for _ in 0..$max_calls {
             let r: CallRes = match drv {
-                Driver::Next => rd.next::<DecodedBytes>().map(conv_read),
-                Driver::Read => Some(conv_read(rd.read::<DecodedBytes>())),
+                Driver::Next => rd.next::<DecodedBytes>().map(|r| conv_read_id(r, ids)),
+                Driver::Read => Some(conv_read_id(rd.read::<DecodedBytes>(), ids)),
                 Driver::NextNb => match rd.next_nb::<DecodedBytes>() {
                     Ok(None) => None,
                     Ok(Some(m)) => Some(Ev::Msg(m.to_vec())),
                     Err(nb::Error::WouldBlock) => Some(Ev::Io(IoK::WouldBlock, 0)),
-                    Err(nb::Error::Other(e)) => Some(conv_read(Err(e))),
+                    Err(nb::Error::Other(e)) => Some(conv_read_id(Err(e), ids)),
                 },
-                Driver::ReadNb => Some(conv_nb(rd.read_nb::<DecodedBytes>())),
+                Driver::ReadNb => Some(conv_nb(rd.read_nb::<DecodedBytes>(), ids)),
             };
             let is_end = matches!(r, None | Some(Ev::Io(IoK::Eof, 0)));
             res.push(r);
@@ -413,52 +484,33 @@ macro_rules! drive_loop {
     }};
 }
 /// Same over the embedded-hal byte source (exactly `ncalls` calls, there is no end of input).
-fn drive_real_eh(stream: &[u8], sched: &[(usize, Fault)], drv: Driver, ncalls: usize) -> Vec<CallRes> {
+fn drive_real_eh(stream: &[u8], sched: &[(usize, Fault)], drv: Driver, ncalls: usize) -> (Vec<CallRes>, Vec<String>) {
     let mut res: Vec<CallRes> = vec![];
+    let mut ids: Vec<String> = vec![];
     let r = guarded(|| {
         let src = SchedEh { s: stream, i: 0, call: 0, sched };
-        drive_loop!(SmlReader::with_static_buffer::<64>().from_eh_reader(src), drv, ncalls, res, false);
+        // the reader's type is spelled out: the builder must hand back the buffer that was asked for
+        let rd: SmlReader<_, sml_rs::util::ArrayBuf<64>> = SmlReader::with_static_buffer::<64>().from_eh_reader(src);
+        drive_loop!(rd, drv, ncalls, res, false, ids);
     });
     if let Err(p) = r {
         res.push(Some(Ev::Panic(p)));
     }
-    res
+    (res, ids)
 }
-fn drive_real(stream: &[u8], sched: &[(usize, Fault)], drv: Driver, max_calls: usize) -> (Vec<CallRes>, usize) {
+fn drive_real(stream: &[u8], sched: &[(usize, Fault)], drv: Driver, max_calls: usize) -> (Vec<CallRes>, usize, Vec<String>) {
     let calls = Cell::new(0usize);
     let mut res: Vec<CallRes> = vec![];
+    let mut ids: Vec<String> = vec![];
     let r = guarded(|| {
         let src = SchedRead { s: stream, i: 0, call: 0, sched, eof: false, calls_seen: &calls, burst_left: 0 };
-        let mut rd = SmlReader::with_static_buffer::<64>().from_reader(src);
-        let mut ends = 0;
-        for _ in 0..max_calls {
-            let r: CallRes = match drv {
-                Driver::Next => rd.next::<DecodedBytes>().map(conv_read),
-                Driver::Read => Some(conv_read(rd.read::<DecodedBytes>())),
-                Driver::NextNb => match rd.next_nb::<DecodedBytes>() {
-                    Ok(None) => None,
-                    Ok(Some(m)) => Some(Ev::Msg(m.to_vec())),
-                    Err(nb::Error::WouldBlock) => Some(Ev::Io(IoK::WouldBlock, 0)),
-                    Err(nb::Error::Other(e)) => Some(conv_read(Err(e))),
-                },
-                Driver::ReadNb => Some(conv_nb(rd.read_nb::<DecodedBytes>())),
-            };
-            let is_end = matches!(r, None | Some(Ev::Io(IoK::Eof, 0)));
-            res.push(r);
-            if is_end {
-                ends += 1;
-                if ends >= 2 {
-                    break;
-                }
-            } else {
-                ends = 0;
-            }
-        }
+        let rd: SmlReader<_, sml_rs::util::ArrayBuf<64>> = SmlReader::with_static_buffer::<64>().from_reader(src);
+        drive_loop!(rd, drv, max_calls, res, true, ids);
     });
     if let Err(p) = r {
         res.push(Some(Ev::Panic(p)));
     }
-    (res, calls.get())
+    (res, calls.get(), ids)
 }
 
 /// Fault-free segment knowledge: events with positions and the unaccounted count at
@@ -489,8 +541,9 @@ fn segment(stream: &[u8]) -> Segment {
 }
 /// The reference reader of C11: what each call must return, given the stream, the
 /// schedule and the driver. Differential: uses the fault-free decoding of each segment.
-fn drive_ref(stream: &[u8], sched: &[(usize, Fault)], drv: Driver, max_calls: usize, eh: bool) -> Vec<CallRes> {
+fn drive_ref(stream: &[u8], sched: &[(usize, Fault)], drv: Driver, max_calls: usize, eh: bool) -> (Vec<CallRes>, Vec<String>) {
     let mut res = vec![];
+    let mut ids: Vec<String> = vec![];
     let mut seg_from = 0usize;
     let mut seg = segment(stream);
     let mut p = 0usize; // bytes of the current segment consumed
@@ -518,10 +571,12 @@ fn drive_ref(stream: &[u8], sched: &[(usize, Fault)], drv: Driver, max_calls: us
                 p = 0;
                 break if n == 0 && is_next { None } else { Some(Ev::Io(IoK::Eof, n)) };
             }
-            match fault {
-                Some(Fault::WouldBlock) => break Some(Ev::Io(IoK::WouldBlock, 0)),
-                Some(Fault::Interrupted) | Some(Fault::IntrBurst) => continue,
-                Some(Fault::ErrEof) => {
+            // an embedded-hal source knows two answers besides a byte: WouldBlock and an error value
+            let class = fault.map(|f| if eh && f != Fault::WouldBlock { FaultClass::Other } else { f.class() });
+            match class {
+                Some(FaultClass::WouldBlock) => break Some(Ev::Io(IoK::WouldBlock, 0)),
+                Some(FaultClass::Retry) => continue,
+                Some(FaultClass::ErrEof) => {
                     // classified as end of input: pending bytes are given up and reported, nothing
                     // pending means the iterator-style end signal; the source itself goes on
                     let n = seg.unacc[p];
@@ -530,14 +585,15 @@ fn drive_ref(stream: &[u8], sched: &[(usize, Fault)], drv: Driver, max_calls: us
                     p = 0;
                     break if n == 0 && is_next { None } else { Some(Ev::Io(IoK::Eof, n)) };
                 }
-                Some(Fault::Other) | Some(Fault::BrokenPipe) | Some(Fault::TimedOut) | Some(Fault::Kind(_)) => {
+                Some(FaultClass::Other) => {
                     let n = seg.unacc[p];
                     seg_from += p;
                     seg = segment(&stream[seg_from..]);
                     p = 0;
+                    ids.push(if eh { nb::Error::Other(0x100 + c as u16).ident() } else { format!("{:?}", fault.unwrap().error().unwrap().kind()) });
                     break Some(Ev::Io(IoK::Other, n));
                 }
-                Some(Fault::Eof) => unreachable!(),
+                Some(FaultClass::Eof) => unreachable!(),
                 None => {
                     p += 1;
                     if let Some((_, e)) = seg.events.iter().find(|(ps, _)| *ps == p) {
@@ -557,7 +613,7 @@ fn drive_ref(stream: &[u8], sched: &[(usize, Fault)], drv: Driver, max_calls: us
             ends = 0;
         }
     }
-    res
+    (res, ids)
 }
 fn callres_short(v: &[CallRes]) -> String {
     let mut s = String::from("[");
@@ -578,12 +634,13 @@ fn sched_str(s: &[(usize, Fault)]) -> String {
 }
 fn c11_case(stream: &[u8], sched: &[(usize, Fault)], drv: Driver, eh: bool, out: &mut Vec<Viol>, counts: &mut Counts) {
     let max_calls = stream.len() + sched.len() + 8;
-    let (got, want) = if eh {
+    let ((got, got_ids), (want, want_ids)) = if eh {
         // per call at most one byte-source fault or one result: len + faults + 4 calls see everything
         let n = sched.len() + 6 + stream.len() / 8;
         (drive_real_eh(stream, sched, drv, n), drive_ref(stream, sched, drv, n, true))
     } else {
-        (drive_real(stream, sched, drv, max_calls).0, drive_ref(stream, sched, drv, max_calls, false))
+        let r = drive_real(stream, sched, drv, max_calls);
+        ((r.0, r.2), drive_ref(stream, sched, drv, max_calls, false))
     };
     counts.inc(if eh { "schedules run (embedded-hal source)" } else { "schedules run" });
     if got.iter().any(|r| matches!(r, Some(Ev::Io(IoK::WouldBlock, _)))) {
@@ -597,6 +654,15 @@ fn c11_case(stream: &[u8], sched: &[(usize, Fault)], drv: Driver, eh: bool, out:
     }
     if got.iter().any(|r| matches!(r, Some(Ev::Io(IoK::WouldBlock, _)) | Some(Ev::Io(IoK::Other, _))) || matches!(r, Some(Ev::Io(IoK::Eof, n)) if *n > 0)) {
         counts.inc("schedules in which a fault became visible");
+    }
+    if got == want && got_ids != want_ids {
+        out.push(Viol {
+            class: "C11 the read error handed to the caller is not the one the byte source raised".into(),
+            key: format!("{}:{}{}:[{}]", hex(stream), drv.token(), if eh { "/eh" } else { "" }, sched_str(sched)),
+            what: format!("stream {} driver {} schedule [{}]: the source raised {:?}, the reader returned {:?}", hex(stream), drv.token(), sched_str(sched), want_ids, got_ids),
+            case: J::obj().set("engine", "e3").set("check", "C11").set("stream", hex(stream)).set("driver", drv.token()).set("schedule", sched_str(sched)).set("source", if eh { "embedded-hal" } else { "io::Read" }),
+            size: sched.len() * 1000 + stream.len(),
+        });
     }
     if got != want {
         let class = if got.iter().any(|r| matches!(r, Some(Ev::Panic(_)))) { "C05 reader panics under a byte-source fault" } else { "C11 reader results under byte-source faults differ from the reference reader" };
@@ -698,7 +764,7 @@ pub fn run_c11(tier: Tier) -> ! {
                 c11_case(s, &[], drv, true, &mut out, &mut c);
                 // every other std::io::ErrorKind, once, at every position
                 for pos in 0..s.len() + 2 {
-                    for kk in 0..16u8 {
+                    for kk in all_kind_indices() {
                         c11_case(s, &[(pos, Fault::Kind(kk))], drv, false, &mut out, &mut c);
                     }
                 }
@@ -744,7 +810,7 @@ pub fn run_c11(tier: Tier) -> ! {
     let cov = J::obj()
         .set("evaluations", n)
         .set("distinct_nontrivial", counts.get("schedules in which a fault became visible"))
-        .set("rule", "choice points = every call of io::Read::read made by the reader; default answer = next byte (Ok(0) at the end, persistently); deviations = WouldBlock, Interrupted, a burst of 300 Interrupted, Other, BrokenPipe, TimedOut, Err(UnexpectedEof) (and, in single-deviation schedules, each of 16 further std::io::ErrorKind values), premature persistent end of input (io::Read source) and WouldBlock, Other (embedded-hal serial source, which has no end of input); every placement of up to k deviations (same position repeated included) on each stream, for the drivers next / read / next_nb / read_nb, run to completion and compared call by call with the reference reader; non-trivial = schedules in which a fault became visible or cost pending bytes")
+        .set("rule", "choice points = every call of io::Read::read made by the reader; default answer = next byte (Ok(0) at the end, persistently); deviations = WouldBlock, Interrupted, a burst of 300 Interrupted, Other, BrokenPipe, TimedOut, Err(UnexpectedEof) (and, in single-deviation schedules, each of 36 further std::io::ErrorKind values and io::Error::from_raw_os_error(n) for every errno 1..=133, classified by std's own kind()); the kind of every returned 'other' error (the error value for the embedded-hal source) is compared with what the source raised, premature persistent end of input (io::Read source) and WouldBlock, Other (embedded-hal serial source, which has no end of input); every placement of up to k deviations (same position repeated included) on each stream, for the drivers next / read / next_nb / read_nb, run to completion and compared call by call with the reference reader; non-trivial = schedules in which a fault became visible or cost pending bytes")
         .set("samples", vec!["stream 1b1b1b1b0101010112340000 1b1b1b1b1a02.... driver next schedule [3:WouldBlock,9:Other]", "stream 55 1b + frame(000000) + 1b1b01 driver read_nb schedule [0:Interrupted,1:Interrupted]"])
         .set("states", n)
         .set("transitions", n)
